@@ -420,7 +420,7 @@ class World:
 
     def make_case(self, op: int, ids: list[int], shape: str, case_id: str) -> Any:
         """What `openapi_cases(operation=..., **link kwargs)` returns for this shape (checked by the `meta` item):
-        a component is absent from `meta.components` exactly when the link supplied all of its declared parameters."""
+        a component is absent from `meta.components` when nothing is declared for it or the link supplied all of its parameters."""
         from schemathesis.core import NOT_SET
         from schemathesis.generation import GenerationMode
         from schemathesis.generation.meta import (CaseMetadata, ComponentInfo, ComponentKind, GenerationInfo,
@@ -434,7 +434,9 @@ class World:
         components = {}
         for kind in kinds:
             names = declared.get(kind, [])
-            if names and all(n in supplied for n in names):
+            if not names:
+                continue  # no parameter declared for this location: its value is None, there is nothing to label
+            if all(n in supplied for n in names):
                 continue  # explicit value == final value -> "not generated"
             components[kind] = ComponentInfo(mode=GenerationMode.POSITIVE)
         has_body = spec["method"] in ("POST", "PUT")
